@@ -40,10 +40,12 @@ def _leaf_value(name):
         return 4.0 + 5.0 * h
     if VALUATION == "negative-large":
         return -(4.0 + 5.0 * h)
-    # "assigned-zero": the values handed to setters / scalar parameters are exactly zero, stored coordinates are small
-    if name.startswith(("new", "k", "s", "ang", "a1", "a2", "a3")):
-        return 0.0
-    return 0.15 + 0.7 * h
+    # "assigned-zero": every scalar that is not a stored coordinate (values handed to setters, factors, angles, tolerances, keyword
+    # values) is exactly zero; stored coordinates are small
+    import re
+    if re.match(r"^(x|y|rho|phi|z|theta|eta|t|tau)(\d|w\d|[a-z]?_)", name):
+        return 0.15 + 0.7 * h
+    return 0.0
 
 
 def teval(t):
